@@ -30,6 +30,11 @@ def scratch():
         os.makedirs(_scratch, exist_ok=True)
         if not os.environ.get('VERIF_KEEP'):
             atexit.register(lambda: shutil.rmtree(_scratch, ignore_errors=True))
+            # a terminated check (timeout(1), vp stop) must not leave its scratch behind: turn the signal into a normal exit
+            if threading.current_thread() is threading.main_thread():
+                for sg in (signal.SIGTERM, signal.SIGHUP):
+                    try: signal.signal(sg, lambda n, f: sys.exit(128 + n))
+                    except (ValueError, OSError): pass
     return _scratch
 
 
